@@ -14,6 +14,7 @@ import HawkModel.Drv.Sed
 import HawkModel.Drv.Ctx
 import HawkModel.Drv.ReadIo
 import HawkModel.Drv.Crash
+import HawkModel.Drv.Deparse
 
 def main (args : List String) : IO UInt32 := do
   match args with
@@ -33,4 +34,5 @@ def main (args : List String) : IO UInt32 := do
   | "ctx" :: _ => Hawk.Drv.Ctx.main; return 0
   | "readio" :: _ => Hawk.Drv.ReadIo.main; return 0
   | "crash" :: _ => Hawk.Drv.Crash.main; return 0
+  | "deparse" :: _ => Hawk.Drv.Deparse.main; return 0
   | _ => IO.eprintln "usage: hawkdrv <area>"; return 2
